@@ -4,8 +4,19 @@ import BoltonsVerif.C19.Model
 C19 line protocol.  One line = one case.
   sl <cps>                     iter_splitlines(text)      -> `<lines>|<lines of str.splitlines>`
   rl <hex> <bs>                reverse_iter_lines(content, blocksize) -> lines (hex)
+  rt <hex> <bs>                the same on a text-mode file: lines as decoded text (code points); a line the strict
+                               UTF-8 codec rejects ends the output with `!UnicodeDecodeError`
+  rf <hex> <pos> <bs>          reverse_iter_lines(content, blocksize, preseek=False) with the file position at pos
+  in <cps> <cps> <cps> <key>   indent(text, margin, newline, key) with key = bool (the default) / all (always true)
+                               -> text (code points)
   jl <b|t> <0|1> <hex>         JSONLIterator forward (binary / text-mode file) and reverse,
-                               ignore_errors 0/1 -> `F<objs>[!Err] R<objs>[!Err]`
+                               ignore_errors 0/1 -> `F<objs>[!Err] R<objs>[!Err]`; with ignore_errors 0 followed by
+                               ` A<results> B<results>`: every next() result forward / reverse, the iteration
+                               being resumed after each error (`!Err` in place); for binary files ` P<positions>`
+                               before that: cur_byte_pos read after each object of the forward loop
+  js <0|1> <target> <hex>      JSONLIterator(text-mode file, ignore_errors, rel_seek) forward and reverse, with
+                               target = int(size * rel_seek), or `zero` for rel_seek=0.0
+                               -> `F<objs>[!Err] R<objs>[!Err]`, or `hang`
   tbl                          the generated tables
 Text travels as decimal code points separated by `.` (`-` = empty); bytes as hex (`-` = empty).
 A list of lines is shown as its lines separated by `,`; the empty list is `[]`.
@@ -41,29 +52,6 @@ inductive Obj where
 def jsonWs (c : Nat) : Bool := c == 32 || c == 9 || c == 10 || c == 13
 
 def skipWs (s : List Nat) : List Nat := s.dropWhile jsonWs
-
-def isCont (b : Nat) : Bool := 128 ≤ b && b ≤ 191
-
-/-- UTF-8 as accepted by `bytes.decode('utf-8', 'surrogatepass')` -/
-def validUtf8 : List Nat → Bool
-  | [] => true
-  | b :: rest =>
-    if b < 128 then validUtf8 rest
-    else if 194 ≤ b && b ≤ 223 then
-      match rest with
-      | c1 :: r => isCont c1 && validUtf8 r
-      | _ => false
-    else if 224 ≤ b && b ≤ 239 then
-      match rest with
-      | c1 :: c2 :: r => isCont c1 && isCont c2 && (b != 224 || 160 ≤ c1) && validUtf8 r
-      | _ => false
-    else if 240 ≤ b && b ≤ 244 then
-      match rest with
-      | c1 :: c2 :: c3 :: r =>
-        isCont c1 && isCont c2 && isCont c3 && (b != 240 || 144 ≤ c1) && (b != 244 || c1 ≤ 143)
-          && validUtf8 r
-      | _ => false
-    else false
 
 def isDigit (c : Nat) : Bool := 48 ≤ c && c ≤ 57
 
@@ -116,6 +104,16 @@ def parseMini (l : List Nat) : Except String Obj :=
   | some (o, rest) => if (skipWs rest).isEmpty then .ok o else .error "JSONDecodeError"
   | none => .error "JSONDecodeError"
 
+/-- UTF-8 of one code point (text handed to `json.loads` as `str` has no lone surrogates) -/
+def encodeCp (c : Nat) : List Nat :=
+  if c < 128 then [c]
+  else if c < 2048 then [192 + c / 64, 128 + c % 64]
+  else if c < 65536 then [224 + c / 4096, 128 + c / 64 % 64, 128 + c % 64]
+  else [240 + c / 262144, 128 + c / 4096 % 64, 128 + c / 64 % 64, 128 + c % 64]
+
+/-- `json.loads` of a `str` line (text-mode files): the recogniser on the UTF-8 of the text -/
+def parseMiniT (t : List Nat) : Except String Obj := parseMini (t.flatMap encodeCp)
+
 def showObj : Obj → String
   | .int neg ds => "i" ++ (if neg then "-" else "") ++ String.ofList (ds.map Char.ofNat)
   | .str bs => "s" ++ showHex bs
@@ -127,6 +125,13 @@ def showRun (r : List Obj × Option String) : String :=
   (if r.1.isEmpty then "[]" else ",".intercalate (r.1.map showObj)) ++
   (match r.2 with | some e => "!" ++ e | none => "")
 
+/-- every `next()` result, errors in place: `i1,!JSONDecodeError,i20` -/
+def showOutcomes (r : List (Except String Obj)) : String :=
+  if r.isEmpty then "[]" else ",".intercalate (r.map fun x =>
+    match x with
+    | .ok o => showObj o
+    | .error e => "!" ++ e)
+
 def handle (line : String) : String :=
   match words line with
   | ["sl", t] =>
@@ -137,19 +142,74 @@ def handle (line : String) : String :=
     match hex? c, bs.toNat? with
     | some c, some bs => if bs = 0 then "bad-op" else showLines showHex (reverseIterLines c bs)
     | _, _ => "bad-op"
+  | ["rt", c, bs] =>
+    match hex? c, bs.toNat? with
+    | some c, some bs =>
+      if bs = 0 then "bad-op" else
+      let ls := reverseIterLinesText c bs
+      let good := (ls.takeWhile Option.isSome).filterMap id
+      showLines showCps good ++ (if good.length < ls.length then "!UnicodeDecodeError" else "")
+    | _, _ => "bad-op"
+  | ["rf", c, pos, bs] =>
+    match hex? c, pos.toNat?, bs.toNat? with
+    | some c, some pos, some bs =>
+      if bs = 0 then "bad-op" else showLines showHex (reverseIterLinesFrom c pos bs)
+    | _, _, _ => "bad-op"
+  | ["in", t, m, nl, key] =>
+    match cps? t, cps? m, cps? nl with
+    | some t, some m, some nl =>
+      if key = "bool" then showCps (indent keyBool m nl t)
+      else if key = "all" then showCps (indent (fun _ => true) m nl t)
+      else "bad-op"
+    | _, _, _ => "bad-op"
   | ["jl", mode, ign, c] =>
     match hex? c with
     | some c =>
       if (mode ≠ "b" ∧ mode ≠ "t") ∨ (ign ≠ "0" ∧ ign ≠ "1") then "bad-op" else
       let ignore := ign == "1"
-      let fwd := if mode == "b" then jsonlForwardB parseMini ignore c else jsonlForwardT parseMini ignore c
       -- 4096 is the block size JSONLIterator uses; by `C19.jsonl_blocksize_independent` any other
       -- block size gives the same result
-      let rev := jsonlReverse parseMini ignore 4096 c
-      "F" ++ showRun fwd ++ " R" ++ showRun rev
+      if mode == "b" then
+        let fwd := jsonlForwardB pyWs parseMini ignore c
+        let rev := jsonlReverse pyWs parseMini ignore 4096 c
+        -- strict mode: also the results of going on calling next() after each error
+        "F" ++ showRun fwd ++ " R" ++ showRun rev ++
+          " P" ++ showNats (jsonlForwardPosB pyWs parseMini ignore c) "." ++
+          (if ignore then "" else " A" ++ showOutcomes (outcomes pyWs parseMini false (fileLinesB c)) ++
+            " B" ++ showOutcomes (outcomes pyWs parseMini false (reverseIterLines c 4096)))
+      else
+        -- text mode: the lines are `str`; forward = universal newlines over the decoded text,
+        -- reverse = the byte lines found backwards, each decoded
+        match decodeG false c with
+        | none => "undecodable"
+        | some t =>
+          let fwd := jsonlForwardT pyWsT parseMiniT ignore t
+          let rev := jsonlReverseText pyWsT parseMiniT ignore 4096 c
+          "F" ++ showRun fwd ++ " R" ++ showRun rev ++
+            (if ignore then "" else " A" ++ showOutcomes (outcomes pyWsT parseMiniT false (fileLinesT false t)) ++
+              " B" ++ showOutcomes (outcomes pyWsT parseMiniT false ((reverseIterLinesText c 4096).filterMap id)))
     | none => "bad-op"
+  | ["js", ign, "zero", c] =>
+    match hex? c with
+    | some c =>
+      if ign ≠ "0" ∧ ign ≠ "1" then "bad-op" else
+      let ignore := ign == "1"
+      "F" ++ showRun (jsonlRelSeekZero pyWsT parseMiniT ignore false 4096 c) ++ " R" ++
+        showRun (jsonlRelSeekZero pyWsT parseMiniT ignore true 4096 c)
+    | none => "bad-op"
+  | ["js", ign, target, c] =>
+    match hex? c, target.toNat? with
+    | some c, some target =>
+      if ign ≠ "0" ∧ ign ≠ "1" then "bad-op" else
+      let ignore := ign == "1"
+      match jsonlRelSeek pyWsT parseMiniT ignore false 4096 c target, jsonlRelSeek pyWsT parseMiniT ignore true 4096 c target with
+      | some fwd, some rev => "F" ++ showRun fwd ++ " R" ++ showRun rev
+      | _, _ => "hang"
+    | _, _ => "bad-op"
   | ["tbl"] =>
-    "E" ++ showLines showCps Generated.lineEndings
+    "E" ++ showLines showCps Generated.lineEndings ++ " L" ++ showCps Generated.lstripSet
+      ++ " R" ++ showCps Generated.rstripSet ++ " T" ++ showCps Generated.lstripSetT ++ " S" ++ showCps Generated.strBreakSet
+      ++ " B" ++ showCps Generated.bytesBreakSet ++ " Z" ++ (if Generated.alignStopsAtEof then "1" else "0")
   | _ => "bad-op"
 
 end C19.Driver
